@@ -2521,7 +2521,7 @@ def bittest_get(a, b):
     else:
         off_bit = ExprOp('&', b, ExprInt_from(a, a.get_size() - 1))
         off_byte = ExprOp("&",
-                          ExprOp('>>', b, ExprInt_from(a, 3)),
+                          ExprOp('a>>', b, ExprInt_from(a, 3)),
                           ExprOp('!', ExprInt_from(a, a.get_size()/8 -1)))
 
         d = ExprMem(a.arg+off_byte, a.size)
